@@ -171,6 +171,16 @@ func c10Body(d c10Desc) func() {
 				c.Close()
 			case "abort":
 				c.Abort()
+			case "wait":
+				// the client keeps the connection open and waits for the service to end it (the stream holds a
+				// frame that is not a call, or a call whose handler fails)
+				buf := make([]byte, 4096)
+				for {
+					if _, err := c.Read(buf); err != nil {
+						break
+					}
+				}
+				c.Close()
 			}
 			st.victDone = true
 		})
@@ -242,7 +252,7 @@ func c10Check(d c10Desc) func(x *vsched.Exec) (string, string) {
 	_ = offending
 	wantFrames, wantLog := refConn(calls)
 	pFrames, pLog := refConn(probeScript)
-	exact := d.End == "half" && d.EPIPE == 0 && d.Stall == 0
+	exact := (d.End == "half" || d.End == "wait") && d.EPIPE == 0 && d.Stall == 0
 	return func(x *vsched.Exec) (string, string) {
 		if x.Panic != "" {
 			return "panic: " + x.Panic, "panic"
@@ -418,6 +428,21 @@ func scenariosC10(tier string) []Scen {
 						dd.Cut, dd.End = cut, end
 						add(dd, 1)
 					}
+				}
+			}
+			// clients that do not go away: after a frame that is not a call (or a failing handler) the service ends the
+			// connection by itself
+			if tail == "" {
+				ends := false
+				for _, f := range fs {
+					if _, ok := classifyCall(c10Frames[f]); !ok || f == "herr" {
+						ends = true
+					}
+				}
+				if ends {
+					dd := d
+					dd.Cut, dd.End = n, "wait"
+					add(dd, 1)
 				}
 			}
 			// stalled readers: the victim's replies cannot be written (at all / after the first byte) until it goes away
